@@ -1,6 +1,7 @@
 import DC.Prelude.Hex
 import DC.Spec.PrecSpec
 import DC.Model.BufioIO
+import DC.Model.StmtLoop
 
 /-! Dispatch table of the line-protocol driver. A handler gets the op and its arguments and
 answers `none` if the op is not its own. Unknown ops answer `bad-op` (never a default value). -/
@@ -9,7 +10,8 @@ namespace DC.Driver
 def handlers : List (String → List String → Option String) := [
   fun op args => if op == "ping" then some ("pong " ++ " ".intercalate args) else none,
   DC.Bufio.IO.handle,
-  DC.Spec.PrecSpec.handle   -- c08
+  DC.Spec.PrecSpec.handle,   -- c08
+  DC.Model.StmtLoop.handle   -- c16 (op `stmtloop`)
 ]
 
 def dispatch (line : String) : String :=
